@@ -232,7 +232,7 @@ func main() {
 	r.Bound("constructor_depth", depth)
 	r.Assume("domain: programs accepted by Go's type checker (go/types, 32-bit int) and by Wa's front end; a program Wa's front end rejects is recorded as a note, not as a violation")
 	r.Assume("documented restrictions (docs/goals.md): no goroutines (`go`), no channels; the grammar uses neither, nor complex numbers, method values or reflection ('may have' features)")
-	r.Assume("from depth 2 on, the binary constructors (map, struct, func) take every type of the previous depth in one position and a representative (int32, string) in the other; method sets only on types Go allows as receiver base")
+	r.Assume("from depth 2 on, the binary constructors (map, struct, func) take every type of the previous depth in one position and a representative in the other (int32; thorough: at depth 2 also string); pointer-receiver methods on every type Go allows as receiver base, value-receiver methods on the basic types and the depth-1 types over int32")
 	r.Assume("programs are compiled and validated, not executed (execution is C01's subject)")
 
 	v8, err := watgen.StartV8(mc.VerifDir())
@@ -364,13 +364,10 @@ func main() {
 				}
 				continue
 			}
-			if len(b) <= 8 {
-				for _, it := range b {
-					next = append(next, []progs.TypeItem{it})
-				}
-			} else {
-				h := len(b) / 2
-				next = append(next, b[:h], b[h:])
+			// items are packed by (context, constructor) class, so a failing program mostly
+			// consists of failing items: go to single items at once
+			for _, it := range b {
+				next = append(next, []progs.TypeItem{it})
 			}
 		}
 		batches = next
